@@ -282,10 +282,13 @@ class VisibilityDataV4(DataSet):
         self._time_keep = np.full(num_dumps, True, dtype=bool)
         all_dumps = [0, num_dumps]
 
-        # Assemble sensor cache
+        # Assemble sensor cache. It gets its own copy of the virtual sensor templates,
+        # since applycal registers more templates on the cache that are specific to
+        # this data set (its cal streams, frequencies, targets and flux overrides)
+        # and these must not leak into other data sets via the module-level dict.
         self.sensor = SensorCache(source.metadata.sensors, source.timestamps,
                                   self.dump_period, self._time_keep,
-                                  SENSOR_PROPS, VIRTUAL_SENSORS, SENSOR_ALIASES,
+                                  SENSOR_PROPS, dict(VIRTUAL_SENSORS), SENSOR_ALIASES,
                                   sensor_store)
 
         # ------ Extract flags ------
